@@ -9,6 +9,8 @@
 (*                      by the crate built with the subset: must be        *)
 (*                      accepted with the same tokens as in the            *)
 (*                      all-features build (e.ref)                         *)
+(*   op = "refuse"   -- an input (naming enabled traits only) that the     *)
+(*                      all-features build refuses: must be refused too    *)
 (*   op = "disabled" -- an input naming a disabled trait: must be refused  *)
 (*                      as an unsupported trait                            *)
 (***************************************************************************)
@@ -25,6 +27,8 @@ Accept(e) ==
          ELSE e.ok /\ e.warnings = 0
     [] e.op = "expand" -> e.outcome = "ok" /\ e.out = e.ref
     [] e.op = "disabled" -> e.outcome = "err" /\ e.unsupported
+    \* an input that only names enabled traits and that the all-features build refuses: refused here as well
+    [] e.op = "refuse" -> e.outcome = "err"
     [] OTHER -> FALSE
 
 TraceInit == l = 1 /\ bad = <<>>
